@@ -37,7 +37,7 @@ static std::string check_answer_wire(const ans::Conf &c, const Bytes &wire, uint
 static CaseResult glue_case(Tape &t)
 {
 	CaseResult r;
-	ans::Conf c; c.qt = (int)t.below(7); c.de = (int)t.below(5); c.namekind = (int)t.below(3); c.buflen = 65536;
+	ans::Conf c; c.qt = (int)t.below(7); c.de = (int)t.below(5); c.namekind = (int)t.below(4); c.buflen = 65536;
 	size_t len;
 	switch (t.pick({3, 3, 2, 3})) { case 0: len = (size_t)t.range(1, 60); break; case 1: len = (size_t)t.range(1, 400); break; case 2: len = (size_t)t.range(1, 4096); break; default: len = (size_t)std::max(1, 252 * t.range(1, 12) + t.range(-3, 3)); break; }
 	if (len > 4096) len = 4096;
@@ -49,7 +49,7 @@ static CaseResult glue_case(Tape &t)
 		std::string e = check_answer_wire(c, o.wire, qid, ans::qname_for(c.namekind));
 		if (!e.empty()) r.fail(std::string("C10:server-answer:type=") + ans::QTN[c.qt], e + " [" + r.render + "] bytes=" + hexs(o.wire, 100));
 	}
-	r.nontrivial = o.sent && (len > 252 || c.namekind == 2 || ((c.qt == 3 || c.qt == 4) && len > 150));
+	r.nontrivial = o.sent && (len > 252 || c.namekind >= 2 || ((c.qt == 3 || c.qt == 4) && len > 150));
 	r.cls("glue"); r.cls(std::string("type:") + ans::QTN[c.qt]);
 	return r;
 }
